@@ -54,9 +54,13 @@ def lha0_file(name, payload, dostime):
 
 Z_SETTINGS = ((16, 1, "-"), (12, 1, "every:3000"), (10, 0, "-"), (13, 1, "every:7935"))
 
-def containers(rng, payload, rle_enc, tier, z_streams=()):
+GZ_PLANS = (("-", "f1"), ("nchx", "s3,f4000,s60000,f1"))
+
+def containers(rng, payload, rle_enc, tier, z_streams=(), gz_members=()):
     """(tag, bytes) for every encoder setting we can produce independently"""
     out = []
+    for (opts, plan), g in zip(GZ_PLANS, gz_members):
+        out.append(("gzip-modelwriter-%s-%s" % (opts.replace("-", "plain"), plan.replace(",", "_")), g))
     for (mb, blk, cl), z in zip(Z_SETTINGS, z_streams):
         out.append(("compress-b%d%s-%s" % (mb, "" if blk else "-noblock", cl.replace(":", "")), z))
     for lv in ((0, 1, 6, 9) if tier == "quick" else range(10)):
@@ -183,12 +187,95 @@ def lzw_leg(ck, tier, rng, stats, rp):
         else:
             ck.nontrivial(("lzw", z))
 
+# ---------------------------------------------------------------------------------------------------------------------------
+# gzip / DEFLATE: the extracted model (Model/Inflate.v) against tinfl_decompress_mem_to_heap and decrunch_gzip themselves.
+
+def inflate_leg(ck, tier, rng, stats, rp):
+    model = V.ocaml_build("inflate")
+    idrv = V.build_driver("inflate_drv", ["inflate_drv.c"]); gdrv = V.build_driver("gz_drv", ["gz_drv.c"])
+    env = V.san_env()
+    st = stats.setdefault("inflate", {"zlib_streams": 0, "writer_members": 0, "mutants": 0, "random": 0, "both_accept": 0, "both_reject": 0, "only_C_accepts_invalid_stream": 0, "bytes_compared": 0})
+    raw = []; gz = []           # (tag, bytes, expected payload or None)
+    if rp:
+        (raw if rp["level"] == "raw" else gz).append((rp["tag"], bytes.fromhex(rp["z"]), None))
+    else:
+        base = open(os.path.join(V.REPO, "test-dev", "data", "ode2ptk.mod"), "rb").read()
+        files = [f for f in V.corpus_files() if 2000 < os.path.getsize(f) < 40000 and f.lower().endswith((".mod", ".xm", ".s3m", ".it"))]
+        pays = [("ode2ptk.mod", base), ("zeros", bytes(5000)), ("abc", b"abcabcabcabcabcabcabcabcabcabcx"), ("one", b"q"), ("random", bytes(rng.randrange(256) for _ in range(3000))),
+                ("runs", b"".join(bytes([rng.randrange(256)]) * rng.choice((1, 2, 3, 4, 257, 258, 259, 600)) for _ in range(60)))]
+        for f in sorted(rng.sample(files, min(len(files), 2 if tier == "quick" else 20))): pays.append((os.path.relpath(f, V.REPO), open(f, "rb").read()))
+        for name, data in pays:
+            for lvl in ((0, 1, 6, 9) if tier == "quick" else range(10)):
+                for strat in (zlib.Z_DEFAULT_STRATEGY, zlib.Z_FIXED, zlib.Z_HUFFMAN_ONLY, zlib.Z_RLE, zlib.Z_FILTERED):
+                    wb = rng.choice((-15, -15, -12, -9)); ml = rng.choice((9, 8, 1))
+                    c = zlib.compressobj(lvl, zlib.DEFLATED, wb, ml, strat); z = c.compress(data) + c.flush()
+                    raw.append(("zlib:%s/l%d/s%d/w%d/m%d" % (name, lvl, strat, wb, ml), z, data)); st["zlib_streams"] += 1
+        req = []; meta = []
+        for name, data in pays:
+            n = len(data)
+            plans = ["s%d" % n, "f%d" % n, "s7,f%d,s1,f1" % max(1, n // 2), "f%d,s0,s%d,f1" % (n // 3, n // 3), ",".join(rng.choice("sf") + str(rng.choice((0, 1, 2, 100, 65535, 70000))) for _ in range(6))]
+            if n > 65535: plans[0] = "s65535,s65535,s1"
+            for pl in plans:
+                opts = rng.choice(("-", "n", "c", "x", "h", "nc", "nchx", "xh"))
+                req.append("Z %s %s %s" % (opts, pl, data.hex() or "-")); meta.append(("writer:%s/%s/%s" % (name, opts, pl), data))
+        out = V.run([model], inp="\n".join(req) + "\n", timeout=3000).stdout.split("\n")
+        for (tag, data), l in zip(meta, out):
+            w = l.split()
+            if len(w) != 3 or w[0] != "GZ": raise V.BuildError("inflate model: unexpected writer output %r" % l[:80])
+            if w[1] != "1": raise V.BuildError("the writer's segments are outside segs_okb or do not stand for the payload (%s)" % tag)
+            gz.append((tag, bytes.fromhex(w[2]), data)); st["writer_members"] += 1
+        def mutants(z, lo):
+            res = []
+            for _ in range(3 if tier == "quick" else 12):
+                b = bytearray(z); k = rng.random()
+                if len(b) <= lo + 1: continue
+                if k < 0.6: b[rng.randrange(lo, len(b))] ^= 1 << rng.randrange(8)
+                elif k < 0.8: del b[rng.randrange(lo + 1, len(b)):]
+                else: b[rng.randrange(lo, min(len(b), lo + 40))] = rng.randrange(256)
+                res.append(bytes(b))
+            return res
+        for tag, z, _ in list(raw): raw += [("mutant:" + tag, m, None) for m in mutants(z, 0)]
+        for tag, z, _ in list(gz): gz += [("mutant:" + tag, m, None) for m in mutants(z, 3)]
+        st["mutants"] = sum(1 for t, _, _ in raw + gz if t.startswith("mutant"))
+        for k in range(200 if tier == "quick" else 4000):
+            raw.append(("random:%d" % k, bytes(rng.randrange(256) for _ in range(rng.choice((1, 2, 5, 20, 100)))), None)); st["random"] += 1
+    mo = V.run([model], inp="".join("I %s\n" % (z.hex() or "-") for _, z, _ in raw) + "".join("G %s\n" % (z.hex() or "-") for _, z, _ in gz), timeout=3000).stdout.split("\n")
+    ri = V.run([idrv], inp="".join("%s\n" % (z.hex() or "-") for _, z, _ in raw), env=env, timeout=3000)
+    outs = [("raw", raw, mo[:len(raw)], ri.stdout.split("\n"), "tinfl_decompress_mem_to_heap")]
+    for mode in ("mem", "file"):
+        rg = V.run([gdrv, mode], inp="".join("%s\n" % (z.hex() or "-") for _, z, _ in gz), env=env, timeout=3000)
+        outs.append(("gzip-" + mode, gz, mo[len(raw):len(raw) + len(gz)], rg.stdout.split("\n"), "decrunch_gzip (%s stream)" % mode))
+        if rg.returncode != 0: ck.violation({"engine": "inflate", "broken": "sanitizer report / crash in decrunch_gzip", "stderr": rg.stderr[-2000:]}, key="c08-gz-crash")
+    if ri.returncode != 0: ck.violation({"engine": "inflate", "broken": "sanitizer report / crash in tinfl_decompress_mem_to_heap", "stderr": ri.stderr[-2000:]}, key="c08-inflate-crash")
+    for level, cases, mres, cres, what in outs:
+        for k, (tag, z, want) in enumerate(cases):
+            if k >= len(cres) or not cres[k].startswith("RET"): break
+            ck.count(); bad = None
+            m = mres[k].split(); mv = None if m[0] == "FAIL" else (bytes.fromhex(m[1]) if m[1] != "-" else b"")
+            w = cres[k].split(); ret = int(w[1])
+            if want is not None and mv != want and not (want == b"" ): raise V.BuildError("the extracted decoder does not give back the payload of %s: the round-trip theorem would be false" % tag)
+            if ret == 0 and mv is not None:
+                st["both_accept"] += 1; st["bytes_compared"] += len(mv)
+                exp = ("md5:" + hashlib.md5(mv).hexdigest()) if len(mv) > 65536 else (mv.hex() or "-")
+                if w[4] != exp: bad = "%s unpacks %s bytes, the model %d, and they differ" % (what, w[3], len(mv))
+            elif ret != 0 and mv is None: st["both_reject"] += 1
+            elif ret != 0:
+                # an empty output is reported as a failure by tinfl_decompress_mem_to_heap (it returns its NULL buffer): not a stream a module can be in
+                if len(mv) > 0: bad = "%s refuses a stream that the format-level decoder accepts (%d bytes)" % (what, len(mv))
+            else: st["only_C_accepts_invalid_stream"] += 1       # miniz is lenient on some invalid streams (e.g. literal/length symbols 286 / 287): no property speaks about those
+            if bad:
+                ck.violation({"engine": "inflate", "level": "raw" if level == "raw" else "gzip", "tag": tag, "z": z.hex() if len(z) < 200000 else None, "what": bad,
+                              "broken": "correspondence: Model/Inflate.v vs miniz_tinfl.c / gunzip.c" + ("; the stream was written by an encoder for a known payload: C08 is violated on this input" if want is not None else "")},
+                             key="c08:inflate:%s:%s" % (level, bad.split(",")[0][:40]))
+            else:
+                ck.nontrivial(("inflate", level, z))
+
 def main():
     tier = sys.argv[1] if len(sys.argv) > 1 else "quick"
     replay = sys.argv[sys.argv.index("--replay") + 1] if "--replay" in sys.argv else None
     ck = V.Check("C08", tier)
     rng = ck.rng
-    ck.proof_leg(["Extract/Extract_rle90.vo", "Extract/Extract_lzw.vo"])
+    ck.proof_leg(["Extract/Extract_rle90.vo", "Extract/Extract_lzw.vo", "Extract/Extract_inflate.vo"])
     drv = V.build_driver("c07_drv", ["c07_drv.c"])
     model = V.ocaml_build("rle90")
     env = V.san_env()
@@ -199,7 +286,7 @@ def main():
     stats = {"payloads": 0, "containers": 0, "by_kind": {}, "rle90_streams": 0, "rle90_ratio_min": 1.0}
     try:
         rp = json.load(open(replay)) if replay else None
-        if rp and rp.get("engine") == "lzw":
+        if rp and rp.get("engine") in ("lzw", "inflate"):
             pay = []
         elif rp:
             pay = [(rp["payload_name"], bytes.fromhex(rp["payload_hex"]) if rp.get("payload_hex") else open(os.path.join(V.REPO, rp["payload_file"]), "rb").read())]
@@ -230,12 +317,20 @@ def main():
             w = l.split()
             if len(w) != 3 or w[0] != "Z" or w[1] != "1": raise V.BuildError("lzw writer: unexpected output %r" % l[:80])
             z_all.setdefault(i, []).append(bytes.fromhex(w[2]))
+        gmodel = V.ocaml_build("inflate")
+        greq = [(i, pl) for i, (_, p) in enumerate(pay) if len(p) <= 130000 for pl in GZ_PLANS]
+        gout = V.run([gmodel], inp="".join("Z %s %s %s\n" % (pl[0], pl[1], pay[i][1].hex()) for i, pl in greq), timeout=3000).stdout.split("\n")
+        g_all = {}
+        for (i, pl), l in zip(greq, gout):
+            w = l.split()
+            if len(w) != 3 or w[0] != "GZ" or w[1] != "1": raise V.BuildError("gzip writer: unexpected output %r" % l[:80])
+            g_all.setdefault(i, []).append(bytes.fromhex(w[2]))
         jobs = []       # (payload index, tag, path)
         for i, (name, payload) in enumerate(pay):
             stats["payloads"] += 1
             bare = os.path.join(tmpd, "p%03d.bin" % i); open(bare, "wb").write(payload); jobs.append((i, "bare", bare))
             stats["rle90_streams"] += 1; stats["rle90_ratio_min"] = min(stats["rle90_ratio_min"], round(len(packed_all[i]) / max(1, len(payload)), 3))
-            for tag, blob in containers(rng, payload, lambda p, i=i: packed_all[i], tier, z_all.get(i, ())):
+            for tag, blob in containers(rng, payload, lambda p, i=i: packed_all[i], tier, z_all.get(i, ()), g_all.get(i, ())):
                 p = os.path.join(tmpd, "c%03d-%s" % (i, tag)); open(p, "wb").write(blob); jobs.append((i, tag, p))
         inp = "".join("LP %s\nTP %s\nTF %s\n" % (p, p, p) for _, _, p in jobs)
         r = V.run([drv, "load"], inp=inp, env=env, timeout=6000)
@@ -273,6 +368,8 @@ def main():
         if r.returncode != 0:
             k = len(blocks) // 3; j = jobs[min(k, len(jobs) - 1)]
             ck.violation({"payload_name": pay[j[0]][0], "container": j[1], "broken": "sanitizer report / crash while unpacking", "stderr": r.stderr[-2000:]}, key="c08-crash")
+        if not rp or rp.get("engine") == "inflate":
+            inflate_leg(ck, tier, rng, stats, rp if rp and rp.get("engine") == "inflate" else None)
         if not rp or rp.get("engine") == "lzw":
             lzw_leg(ck, tier, rng, stats, rp if rp and rp.get("engine") == "lzw" else None)
     finally:
